@@ -277,14 +277,18 @@ pub fn run(ctx: &mut Ctx, replay: Option<&[String]>) {
     // (d) random patterns/lengths incl. indivisible lengths, other element types
     for _ in 0..ctx.scale(800, 150000) {
         // one case in eight: a long pattern (21 ... 100 blocks: beyond the sizes at which sorting / searching helpers change their algorithm)
+        // ... and one in forty: 255 ... 600 blocks, with runs of 256 and more kept blocks (block indices and run lengths beyond 8 bits)
         let long = rng.chance(1, 8);
-        let plen = if long { rng.range(21, 100) } else { rng.range(1, 12) };
-        let mut p: Vec<bool> = (0..plen).map(|_| rng.chance(2, 3)).collect();
+        let huge = rng.chance(1, 40);
+        let plen = if huge { *rng.pick(&[255usize, 256, 257, 258, 300, 320, 511, 512, 513, 600]) } else if long { rng.range(21, 100) } else { rng.range(1, 12) };
+        let dense = huge && rng.chance(1, 2);
+        let mut p: Vec<bool> = (0..plen).map(|_| if dense { rng.chance(99, 100) } else { rng.chance(2, 3) }).collect();
+        if huge { p[plen - 1] = true; }
         if !p.iter().any(|&b| b) {
             p[0] = true;
         }
         let trues = p.iter().filter(|&&b| b).count();
-        let b = if long { rng.range(0, 4) } else { rng.range(0, 30) };
+        let b = if huge { rng.range(1, 2) } else if long { rng.range(0, 4) } else { rng.range(0, 30) };
         let indiv = rng.chance(1, 4);
         let ty = *rng.pick(&[Ty::I64, Ty::F64, Ty::Gf2]);
         if rng.chance(1, 2) {
